@@ -275,13 +275,21 @@ func cbcAll(r *common.Run, a *agg) {
 		l := newLagg(si)
 		var ev, nt int64
 		key, iv := pat(s.kp, s.ks, 1), pat(s.ip, 16, 2)
+		key0, iv0 := append([]byte(nil), key...), append([]byte(nil), iv...)
+		intact := func(entry string, rank int64) { // key and IV are inputs: a call must leave them alone
+			if !bytes.Equal(key, key0) || !bytes.Equal(iv, iv0) {
+				l.report(entry+"|key-or-iv-modified", rank, fmt.Sprintf("%s changed its key / IV argument: key %s -> %s, iv %s -> %s", entry, hx(key0), hx(key), hx(iv0), hx(iv)), map[string]any{"key": hx(key0), "iv": hx(iv0)}, "")
+				copy(key, key0)
+				copy(iv, iv0)
+			}
+		}
 		for n := 0; n <= 48; n++ {
 			for pp := 0; pp < 3; pp++ {
 				if n == 0 && pp > 0 {
 					continue
 				}
 				pt := pat(pp, n, 0)
-				want := stdCBC(key, iv, pt)
+				want := stdCBC(key0, iv0, pt)
 				var ls laySig
 				for lay := 0; lay < 3; lay++ {
 					ev++
@@ -298,6 +306,7 @@ func cbcAll(r *common.Run, a *agg) {
 					b := layout(lay, pt, encLen)
 					var err error
 					_, st, p := common.Catch(func() { err = cryptz.AESCBCEncrypt(b.dst, b.src, key, iv) })
+					intact("AESCBCEncrypt", rank)
 					if p {
 						l.report(ls.sig("AESCBCEncrypt|panic|"+cls, lay), rank, "AESCBCEncrypt panicked at "+common.PanicSite(st), map[string]any{"case": c, "stack": st}, "")
 						continue
@@ -316,6 +325,7 @@ func cbcAll(r *common.Run, a *agg) {
 					d := layout(lay, want, cryptz.AESCBCDecryptLen(want))
 					var got int
 					_, st, p = common.Catch(func() { got, err = cryptz.AESCBCDecrypt(d.dst, d.src, key, iv) })
+					intact("AESCBCDecrypt", rank)
 					c2 := map[string]any{"key": hx(key), "iv": hx(iv), "ciphertext": hx(want), "plaintext": hx(pt), "layout": layNames[lay]}
 					if p {
 						l.report(ls.sig("AESCBCDecrypt|panic|"+cls, lay), rank, "AESCBCDecrypt panicked at "+common.PanicSite(st), map[string]any{"case": c2, "stack": st}, "")
@@ -375,19 +385,29 @@ func gcmAll(r *common.Run, a *agg) {
 		if err != nil {
 			common.Infra("oracle GCM: %v", err)
 		}
+		key0, nonce0 := append([]byte(nil), key...), append([]byte(nil), nonce...)
+		intact := func(entry string, rank int64, aad, aad0 []byte) { // key, nonce and AAD are inputs
+			if !bytes.Equal(key, key0) || !bytes.Equal(nonce, nonce0) || !bytes.Equal(aad, aad0) {
+				l.report(entry+"|key-nonce-or-aad-modified", rank, fmt.Sprintf("%s changed an input argument: key %s -> %s, nonce %s -> %s, aad %s -> %s", entry, hx(key0), hx(key), hx(nonce0), hx(nonce), hx(aad0), hx(aad)), map[string]any{"key": hx(key0), "nonce": hx(nonce0)}, "")
+				copy(key, key0)
+				copy(nonce, nonce0)
+				copy(aad, aad0)
+			}
+		}
 		for _, al := range aadLens {
 			for ap := 0; ap < 3; ap++ {
 				if al == 0 && ap > 0 {
 					continue
 				}
 				aad := pat(ap, al, 4)
+				aad0 := append([]byte(nil), aad...)
 				for n := 0; n <= 48; n++ {
 					for pp := 0; pp < 3; pp++ {
 						if n == 0 && pp > 0 {
 							continue
 						}
 						pt := pat(pp, n, 0)
-						want := aead.Seal(nil, nonce, pt, aad)
+						want := aead.Seal(nil, nonce0, pt, aad0)
 						var ls laySig
 						for lay := 0; lay < 3; lay++ {
 							ev++
@@ -404,6 +424,7 @@ func gcmAll(r *common.Run, a *agg) {
 							b := layout(lay, pt, encLen)
 							var err error
 							_, st, p := common.Catch(func() { err = cryptz.AESGCMEncrypt(b.dst, b.src, key, nonce, aad) })
+							intact("AESGCMEncrypt", rank, aad, aad0)
 							if p {
 								l.report(ls.sig("AESGCMEncrypt|panic|"+cls, lay), rank, "AESGCMEncrypt panicked at "+common.PanicSite(st), map[string]any{"case": c, "stack": st}, "")
 								continue
@@ -424,6 +445,7 @@ func gcmAll(r *common.Run, a *agg) {
 							}
 							d := layout(lay, want, decLen)
 							_, st, p = common.Catch(func() { err = cryptz.AESGCMDecrypt(d.dst, d.src, key, nonce, aad) })
+							intact("AESGCMDecrypt", rank, aad, aad0)
 							c2 := map[string]any{"key": hx(key), "nonce": hx(nonce), "aad": hx(aad), "ciphertext": hx(want), "plaintext": hx(pt), "layout": layNames[lay]}
 							if p {
 								l.report(ls.sig("AESGCMDecrypt|panic|"+cls, lay), rank, "AESGCMDecrypt panicked at "+common.PanicSite(st), map[string]any{"case": c2, "stack": st}, "")
@@ -554,7 +576,13 @@ func gcmTamper(r *common.Run, a *agg) {
 					try("aad-bit-flipped", bit, append([]byte(nil), ct...), nonce, flip(aad, bit))
 				}
 				// length changes
-				try("ciphertext-truncated", 0, append([]byte(nil), ct[:len(ct)-1]...), nonce, aad)
+				for k := 0; k < len(ct); k++ { // every proper prefix, down to the empty message
+					what := "ciphertext-truncated"
+					if k < 16 {
+						what = "ciphertext-shorter-than-a-tag"
+					}
+					try(what, k, append([]byte(nil), ct[:k]...), nonce, aad)
+				}
 				try("ciphertext-extended", 0, append(append([]byte(nil), ct...), 0), nonce, aad)
 				try("aad-extended", 0, append([]byte(nil), ct...), nonce, append(append([]byte(nil), aad...), 0))
 				if al > 0 {
@@ -633,30 +661,40 @@ func pkcs7RoundTrip(r *common.Run, a *agg) {
 					nt++
 				}
 				d := pat(pp, n, 0)
-				in := append([]byte(nil), d...)
-				in = in[:n:n]
 				want := handPad(d, b)
-				rank := int64(b)*1000 + int64(n)
-				c := map[string]any{"block_size": b, "data": hx(d)}
-				var out, back []byte
-				var err, err2 error
-				_, st, p := common.Catch(func() {
-					out, err = cryptz.PKCS7Padding(in, b)
-					if err == nil {
-						back, err2 = cryptz.PKCS7UnPadding(out, b)
+				padLen := len(want) - n
+				// the argument's spare capacity: none, 1, one less than / exactly / one more than the padding needs
+				for _, spare := range []int{0, 1, padLen - 1, padLen, padLen + 1} {
+					if spare < 0 || (spare == 1 && padLen <= 2) || (spare > 0 && pp > 0) {
+						continue
 					}
-				})
-				switch {
-				case p:
-					l.report("PKCS7Padding/UnPadding|panic|valid", rank, "panicked at "+common.PanicSite(st), map[string]any{"case": c, "stack": st}, "")
-				case err != nil:
-					l.report("PKCS7Padding|error-on-valid", rank, fmt.Sprintf("PKCS7Padding(%d bytes, %d) returned %v", n, b, err), c, "")
-				case !bytes.Equal(out, want):
-					l.report("PKCS7Padding|wrong-padding", rank, fmt.Sprintf("PKCS7Padding(%d bytes, %d) = %d bytes ending %s, want %d bytes ending %s", n, b, len(out), hx(tail(out, 4)), len(want), hx(tail(want, 4))), c, "")
-				case err2 != nil:
-					l.report("PKCS7UnPadding|error-on-valid", rank, fmt.Sprintf("PKCS7UnPadding(PKCS7Padding(d,%d),%d) returned %v", b, b, err2), c, "")
-				case !bytes.Equal(back, d):
-					l.report("PKCS7UnPadding|wrong-result|valid", rank, fmt.Sprintf("PKCS7UnPadding(PKCS7Padding(d,%d),%d) has %d bytes, want the %d bytes of d", b, b, len(back), n), c, "")
+					if spare > 0 {
+						ev++
+					}
+					in := make([]byte, n, n+spare)
+					copy(in, d)
+					rank := int64(b)*1000 + int64(n)
+					c := map[string]any{"block_size": b, "data": hx(d), "spare_capacity_of_the_argument": spare}
+					var out, back []byte
+					var err, err2 error
+					_, st, p := common.Catch(func() {
+						out, err = cryptz.PKCS7Padding(in, b)
+						if err == nil {
+							back, err2 = cryptz.PKCS7UnPadding(out, b)
+						}
+					})
+					switch {
+					case p:
+						l.report("PKCS7Padding/UnPadding|panic|valid", rank, "panicked at "+common.PanicSite(st), map[string]any{"case": c, "stack": st}, "")
+					case err != nil:
+						l.report("PKCS7Padding|error-on-valid", rank, fmt.Sprintf("PKCS7Padding(%d bytes, %d) returned %v", n, b, err), c, "")
+					case !bytes.Equal(out, want):
+						l.report("PKCS7Padding|wrong-padding", rank, fmt.Sprintf("PKCS7Padding(%d bytes, %d) = %d bytes ending %s, want %d bytes ending %s", n, b, len(out), hx(tail(out, 4)), len(want), hx(tail(want, 4))), c, "")
+					case err2 != nil:
+						l.report("PKCS7UnPadding|error-on-valid", rank, fmt.Sprintf("PKCS7UnPadding(PKCS7Padding(d,%d),%d) returned %v", b, b, err2), c, "")
+					case !bytes.Equal(back, d):
+						l.report("PKCS7UnPadding|wrong-result|valid", rank, fmt.Sprintf("PKCS7UnPadding(PKCS7Padding(d,%d),%d) has %d bytes, want the %d bytes of d", b, b, len(back), n), c, "")
+					}
 				}
 			}
 		}
@@ -744,6 +782,19 @@ func pkcs7Malformed(r *common.Run, a *agg) {
 			var out []byte
 			var err error
 			_, st, p := common.Catch(func() { out, err = cryptz.PKCS7UnPadding(d, b) })
+			if b == 8 { // PKCS#5 is the same question for block size 8, asked through its own entry point
+				ev++
+				var o5 []byte
+				var e5 error
+				_, _, p5 := common.Catch(func() { o5, e5 = cryptz.PKCS5UnPadding(d) })
+				if p5 || (ok && (e5 != nil || !bytes.Equal(o5, d[:wn]))) || (!ok && e5 == nil) {
+					sig := "PKCS5UnPadding|wrong-verdict|" + padClass(d, b)
+					if l.hit(sig, int64(len(d))*1000+int64(d[len(d)-1])) {
+						l.detail(sig, fmt.Sprintf("PKCS5UnPadding(%s) = %d bytes, %v (panicked: %v); correctly padded: %v, want the first %d bytes", hx(d), len(o5), e5, p5, ok, wn),
+							map[string]any{"data": hx(d), "family": fam}, fmt.Sprintf("func TestReplay(t *testing.T) { d, _ := hex.DecodeString(%q); out, err := cryptz.PKCS5UnPadding(d); t.Log(len(out), err) }", hx(d)))
+					}
+				}
+			}
 			if p || (ok && (err != nil || len(out) != wn || !bytes.Equal(out, d[:wn]))) || (!ok && err == nil) {
 				cls := padClass(d, b)
 				rank := int64(b)*1000000 + int64(len(d))*1000 + int64(d[len(d)-1])
